@@ -351,6 +351,8 @@ def encode_core(ap, obs_end):
     if ap.get("alap") or S % G:
         raise NotCore("alap / unaligned start")
     upper = (obs_end - S) // G
+    if upper > 1500:
+        raise NotCore("horizon too long for the unary-number model run")
     ridx = res_index(ap)
     rleaf = [(p, n) for p, n in ridx.items() if "kids" not in n]
     rnum = {n["id"]: i for i, (p, n) in enumerate(rleaf)}
